@@ -24,16 +24,31 @@
 (*                                                                         *)
 (* CODE-SHAPED: GetItem transcribes __getitem__ branch by branch (ellipsis *)
 (* filter, batch-only, int-last, slice-last, ellipsis-last, tensor-last).  *)
+(* Variant = "pinned" is the code as found, "fixed" a repaired one (see    *)
+(* the constant); checks/c10.py reports which of the two the tree matches. *)
+(*                                                                         *)
+(* DOMAIN: the index forms of PyIndex.tla (at most one ellipsis - torch    *)
+(* tolerates several, numpy does not; index tensors 1-d and adjacent;      *)
+(* positive steps).  Index tensors in batch positions have distinct        *)
+(* entries.  The branch "Multiple ambiguous ellipsis" of the code is only  *)
+(* reachable with two or more ellipses and is therefore outside.           *)
 (***************************************************************************)
 EXTENDS MVNShapes, TLC
 
-CONSTANTS N,             \* event size
-          MeanBatch,     \* batch shape of the stored mean, e.g. <<>>, <<2>>, <<2, 2>>
-          CovBatch,      \* batch shape of the stored covariance
-          Lazy,          \* BOOLEAN: LinearOperator constructor branch (nothing is expanded)
-          StartDiag,     \* BOOLEAN: the covariance is a DiagLinearOperator (all variables independent)
-          IdxFamily,     \* family of index expressions of the first step
-          MaxSteps       \* chain length
+CONSTANT Configs,     \* set of [n, mb, cb, lazy, sdiag, fam, steps]: the configurations one TLC run enumerates
+         Variant      \* "pinned": the code as found (LinearOperator constructor branch stores mean / covariance as given;
+                      \*           zipped index tensors pair columns with the wrong batch element)
+                      \* "fixed" : the constructor expands both to the batch shape; the zipped branch masks by batch element
+
+VARIABLE cfg          \* the configuration of this behaviour (chosen in Init, never changes)
+
+N         == cfg.n        \* event size
+MeanBatch == cfg.mb       \* batch shape of the stored mean, e.g. <<>>, <<2>>, <<2, 2>>
+CovBatch  == cfg.cb       \* batch shape of the stored covariance
+Lazy      == cfg.lazy     \* BOOLEAN: LinearOperator constructor branch (nothing is expanded)
+StartDiag == cfg.sdiag    \* BOOLEAN: the covariance is a DiagLinearOperator (all variables independent)
+IdxFamily == cfg.fam      \* family of index expressions of the first step
+MaxSteps  == cfg.steps    \* chain length
 
 VARIABLES d,      \* [mean, crow, diag, colsok, err]
           sem,    \* [mean, crow, id]: declarative side, expanded to the distribution's full shape; id = identity of the variable
@@ -41,7 +56,7 @@ VARIABLES d,      \* [mean, crow, diag, colsok, err]
           last,
           hist    \* <<[idx, br, err, shape, labels, clabels, ids]>>: inputs and DECLARATIVE expectation of each step
 
-vars == <<d, sem, steps, last, hist>>
+vars == <<cfg, d, sem, steps, last, hist>>
 
 \* ---- representation -----------------------------------------------------------------------------
 MkErr == [mean |-> Err, crow |-> Err, diag |-> FALSE, colsok |-> TRUE, err |-> TRUE]
@@ -120,7 +135,8 @@ GetItem(x, idx0) ==
                  [] br = "tensor-last"   -> Mk(newMean, TIndex(x.crow, rest \o <<lst>>), FALSE, x.colsok)   \* cov[(*rest, last, :)][..., last]
                  [] br = "tensor-last-zipped" ->
                       LET ok == ZipBatchConstant(rest, x.crow.shape)
-                      IN IF ok /\ HasDupRow(newMean) THEN MkErr       \* the result is a plain Tensor: torch's constructor factorises it
+                      IN IF Variant = "fixed" THEN Mk(newMean, TIndex(x.crow, rest \o <<lst>>), FALSE, TRUE)
+                         ELSE IF ok /\ HasDupRow(newMean) THEN MkErr    \* the result is a plain Tensor: torch's constructor factorises it
                          ELSE Mk(newMean, TIndex(x.crow, rest \o <<lst>>), FALSE, ok)
 
 \* ---- declarative side ---------------------------------------------------------------------------------
@@ -200,13 +216,14 @@ StoredCrow == Iota(CovBatch \o <<N>>, Base)
 SemStart == [mean |-> BcastTo(StoredMean, DistBatch \o <<N>>), crow |-> BcastTo(StoredCrow, DistBatch \o <<N>>),
              id |-> Iota(DistBatch \o <<N>>, Base), err |-> FALSE]
 
-Start == IF Lazy THEN Mk(StoredMean, StoredCrow, StartDiag, TRUE)
+Start == IF Lazy /\ Variant = "pinned" THEN Mk(StoredMean, StoredCrow, StartDiag, TRUE)
          ELSE Mk(SemStart.mean, SemStart.crow, StartDiag, TRUE)         \* torch's constructor expands loc and covariance
 
-Init == d = Start /\ sem = SemStart /\ steps = 0 /\ last = <<>> /\ hist = <<>>
+Init == cfg \in Configs /\ d = Start /\ sem = SemStart /\ steps = 0 /\ last = <<>> /\ hist = <<>>
 
 Index(idx) ==
   /\ steps < MaxSteps /\ ~d.err /\ ~sem.err
+  /\ cfg' = cfg
   /\ d' = GetItem(d, idx)
   /\ sem' = SemIndex(sem, idx)
   /\ steps' = steps + 1
